@@ -97,6 +97,16 @@ CHECKS = {
             "Generated collars, survey tables (repeated depths, first depth > 0, any azimuth/dip), query depths and sequences of depth / interval data additions (unsorted, overlapping, collocated within or outside different tolerances, float/int/text, re-opens); every vertex must sit at desurvey(depth), every cell must join desurvey(from)/desurvey(to), and every added value must be found at a support within tolerance of where it was added.",
             "Direction convention (azimuth clockwise from north, dip negative down) taken from the user guide and the default survey, verified on the vertical hole; tolerance 1e-6*(1+depth); 'continues the last direction' accepts the last leg's mean or the last station's direction.",
             "DESIGN.md 3/C18"),
+    "C14": ("uijson", "exploration",
+            "round-trip PBT over ui.json dictionaries assembled from every template with arbitrary member combinations and values of each form's domain; oracle: data/enabled equality before write vs after read, equality with the generated value outside look-alike classes, promote/demote inverses, strict JSON",
+            "Generated ui.json dictionaries (1-10 forms from every templates.* function, optional / group / groupOptional / dependency / multiSelect / isValue members, booleans, big integers, floats incl. infinities and sub-normals, Unicode and look-alike strings, choices, files, entity identifiers and lists, ranges) are written and read back against a workspace fixture; parameter values and enabled states must be identical, identifiers must promote to the same entities and demote back.",
+            "NaN is excluded (documented); look-alike strings ('inf', '1', uuid-shaped text, '*.geoh5', '') and forms the documentation leaves open are counted classes, not judged.",
+            "DESIGN.md 3/C14"),
+    "C15": ("uijson", "exploration",
+            "exhaustive decision table over the optional/enabled/group/dependency switches (2880 rows x 3 values x 2 surfaces) + generated (form, value) pairs with verdict known by construction + differential statelessness over validation histories (used object vs fresh object, rejected call leaves state unchanged)",
+            "The switch table is enumerated completely on every run against a decision table written from the ui.json documentation and requires_value's docstring; generated pairs check accept-invalid and reject-valid in both directions; histories of 2-8 calls on the same InputValidation / validator / EnforcerPool / Parameter / FormParameter / UIJson / InputFile must give the verdict a fresh object gives and a rejected call must leave data, ui_json, validations and parameter values unchanged.",
+            "Combinations the documentation leaves open are marked unspecified, skipped and counted (288 of 16704 verdicts).",
+            "DESIGN.md 3/C15"),
 }
 
 NOT_APPLICABLE = {}
@@ -141,6 +151,8 @@ def main():
         "engines": [
             {"name": "tree", "path": "vp/engines/tree.py", "serves_properties": ["C01", "C02", "C05", "C06", "C09", "C12"],
              "kind_free_text": "Hypothesis strategy for operation programs + interpreter with reference model over groups/objects/data/property groups"},
+            {"name": "uijson", "path": "vp/engines/uijson.py", "serves_properties": ["C14", "C15"],
+             "kind_free_text": "workspace fixture, ui.json generators from the templates, reference rules from the ui.json documentation, history interpreter"},
             {"name": "geom", "path": "vp/engines/geom.py", "serves_properties": ["C17", "C18"],
              "kind_free_text": "reference centroid / tiling / connectivity / desurvey formulas and strategies (no geoh5py import)"},
             {"name": "survey", "path": "vp/props/c20.py", "serves_properties": ["C20"],
